@@ -405,6 +405,7 @@ pub fn check_b(case: &Case) -> Verdict {
         revisions: vec![WRevision { objects, trailer: vec![(B::from("Encrypt"), AObj::Ref(enc_num, 0)), (B::from("ID"), id)] }],
         tape: case.tape.clone(),
         raw_eol_in_strings: false,
+        quirks: 0,
     };
     let out = writer::write(&wf);
     strict::read(&out.bytes).map_err(|e| viol!("harness-ref-writer-invalid", "rule {}: {}", e.rule, e.msg))?;
